@@ -226,8 +226,11 @@ QuotedElems(crs) ==
               LET q == QuotedTexts(crs[r], r)[i] IN
               [k |-> "text", n |-> <<q[1] * MILLI, q[2] * MILLI>>, role |-> <<0, 1>>, fl |-> <<>>, cls |-> <<>>, s |-> q[3], g |-> 0]],
            <<>>, [r \in 1..Len(crs) |-> r])
-\* the statement's domain: no backslash, and no brace (a quoted {tag} is a class tag by C16)
-QuoteDomain(crs) == \A r \in 1..Len(crs) : \A p \in 1..Len(crs[r]) : crs[r][p] \notin {92, 123, 125}
+\* the statement's domain: no backslash inside a quoted segment (outside it is an ordinary drawing character, also
+\* directly before an opening quote), and no brace (a quoted {tag} is a class tag by C16)
+QuoteDomain(crs) == \A r \in 1..Len(crs) : \A p \in 1..Len(crs[r]) :
+                       /\ crs[r][p] \notin {123, 125}
+                       /\ InSeg(QuoteSegs(crs[r]), p) => crs[r][p] # 92
 HasQuoted(crs) == \E r \in 1..Len(crs) : QuoteSegs(crs[r]) # <<>>
 RStripCells(cr) == LET idx == { i \in 1..Len(cr) : cr[i] # SP } IN IF idx = {} THEN <<>> ELSE SubSeq(cr, 1, SetMax(idx))
 
@@ -426,17 +429,19 @@ C14arrow_OK(ev) ==
      /\ HasCls(pe, "filled") /\ Len(pts) = 3 /\ IsPlainLine(le)
      /\ (ArrowGeom(LP1(le), LP2(le), pts, ArrowCell(a)) \/ ArrowGeom(LP2(le), LP1(le), pts, ArrowCell(a)))
 
-\* ev.bullet = [ch (star, o, O), pos ("start" | "end" | "mid"), len, k, n, dir ("h": a run of dashes, "v": a run of bars)]
+\* ev.bullet = [ch (star, o, O), pos ("start" | "end" | "mid"), len, k, n, dir ("h": a horizontal run, "v": a vertical
+\* run), body (the run's character: a dash, a tilde, a box-drawing stroke ... / a bar, a colon, an exclamation mark ...)]
 BulletRows(b) ==
   [i \in 1..b.n |-> <<>>] \o
   (IF b.dir = "h"
-   THEN << Rep(SP, b.k) \o (CASE b.pos = "start" -> <<b.ch>> \o Rep(DASH, b.len)
-                              [] b.pos = "end" -> Rep(DASH, b.len) \o <<b.ch>>
-                              [] OTHER -> Rep(DASH, b.len) \o <<b.ch>> \o Rep(DASH, b.len)) >>
-   ELSE LET col == CASE b.pos = "start" -> <<b.ch>> \o Rep(BAR, b.len)
-                     [] b.pos = "end" -> Rep(BAR, b.len) \o <<b.ch>>
-                     [] OTHER -> Rep(BAR, b.len) \o <<b.ch>> \o Rep(BAR, b.len) IN
+   THEN << Rep(SP, b.k) \o (CASE b.pos = "start" -> <<b.ch>> \o Rep(b.body, b.len)
+                              [] b.pos = "end" -> Rep(b.body, b.len) \o <<b.ch>>
+                              [] OTHER -> Rep(b.body, b.len) \o <<b.ch>> \o Rep(b.body, b.len)) >>
+   ELSE LET col == CASE b.pos = "start" -> <<b.ch>> \o Rep(b.body, b.len)
+                     [] b.pos = "end" -> Rep(b.body, b.len) \o <<b.ch>>
+                     [] OTHER -> Rep(b.body, b.len) \o <<b.ch>> \o Rep(b.body, b.len) IN
         [i \in 1..Len(col) |-> Rep(SP, b.k) \o <<col[i]>>])
+DashedBody(c) == c \in {126, 58, 33, 9476, 9478, 9480, 9482}
 BulletIdx(b) == IF b.pos = "start" THEN 0 ELSE b.len         \* position of the bullet along the run (0-based)
 MarkerClass(ch) == IF ch = 42 THEN "marked_circle" ELSE IF ch = 111 THEN "marked_open_circle" ELSE "marked_big_open_circle"
 C14bullet_OK(ev) ==
@@ -447,6 +452,7 @@ C14bullet_OK(ev) ==
                    \/ (HasCls(e, "start_" \o MarkerClass(b.ch)) /\ <<e.n[1], e.n[2]>> = centre) IN
   /\ ev.doc.wf = 1 /\ ev.rows = BulletRows(b)
   /\ \E i \in Idx(ev.doc) : IsLine(ev.doc.elems[i]) /\ marked(ev.doc.elems[i])
+  /\ (\E i \in Idx(ev.doc) : IsLine(ev.doc.elems[i]) /\ HasCls(ev.doc.elems[i], "broken")) <=> DashedBody(b.body)
   /\ \A i \in Idx(ev.doc) : IsLine(ev.doc.elems[i]) \/ IsText(ev.doc.elems[i])
   /\ \A i \in OfKind(ev.doc, "text") : b.ch \notin RangeOf(ev.doc.elems[i].s)        \* the bullet is not shown as text
   /\ \A i \in Idx(ev.doc) : IsLine(ev.doc.elems[i]) =>                               \* every line lies on the run's axis
